@@ -391,6 +391,7 @@ PROPS = {
         l1_is_concrete=('tokens',),
         l1_concrete_if=proved_where,
         l1_concrete_text='the where-clause of this impl differs from the documented resolution of bound(..) / default bounds (the model, proved equal to Plan.whereClause for this trait and item kind)',
+        extra=extra_rustc(l2gen.gen_seq_case, 160, 4000),
         level_text='partial: Lean theorems that the where-clause threaded by every builder (Clone, Copy, operators, Default, Debug, Deref, the five comparison traits; structs and enums) is the declarative walk, and that with no bound(..) it consists of the declared predicates plus exactly the used field types mentioning a parameter; L1 compares every where-clause token for token; "applies to an instantiation exactly when" is rustc\'s trait solver: validated by the well-typed grammar of C20, not proved',
     ),
     'C04': dict(
@@ -502,7 +503,7 @@ PROPS.update({
         labels=r'^e\d+:|^impl',
         # the hygiene theorem speaks about every token of every template: any token disagreement breaks its tie to the code
         kinds=('panic', 'nondet', 'parse', 'tokens', 'tokens-body', 'count'),
-        extra=extra_rustc(l2gen.gen_c13_case, 900, 12000),
+        extra=extras(extra_rustc(l2gen.gen_c13_case, 900, 12000), extra_rustc(l2gen.gen_seq_case, 120, 3000)),
         level_text='partial: rustc is the judge of name resolution. Proved (Lean, for every item and argument list): every token the expander writes literally is punctuation, a keyword, a primitive type, a literal, a `__`-reserved name or one of three block-local names; all other generated identifiers are segments of absolute `::core::..` paths, member names or attribute contents (provenance-carrying tokens, attr_output_hygienic / derive_output_hygienic); per-field binders keep the reserved prefix; nested helper items never mention the field type. L1 ties every token to the implementation; L2 compiles a well-typed grammar under a hostile-name dictionary in four scopes (incl. a blanket trait offering every method name the generated code calls)',
         level_note='Trusted: rustc as the oracle; the generator of well-typed programs (bin/l2gen.py); the rule set is validated against rustc, not proved complete.',
     ),
@@ -516,7 +517,7 @@ PROPS.update({
         labels=r'^e\d+:|^impl',
         # the hygiene theorem speaks about every token of every template: any token disagreement breaks its tie to the code
         kinds=('panic', 'nondet', 'parse', 'tokens', 'tokens-body', 'count'),
-        extra=extra_rustc(l2gen.gen_c20_case, 900, 15000),
+        extra=extras(extra_rustc(l2gen.gen_c20_case, 900, 15000), extra_rustc(l2gen.gen_seq_case, 120, 3000)),
         level_text='partial: rustc is the judge. Proved (Lean): the rule set R1-R5 the emitted templates obey (reserved generic names; helper items free of the field type; Self-expanded generics in the free Eq-assertion function, and expand_self leaves no Self behind; parenthesised && operands; by-value scrutinee for arm-less matches) and that derive_ex answers exactly documented misuse with an error of its own (C05). Validated, not proved: completeness of the rule set - a dedicated grammar of well-typed inputs (every trait list x shapes incl. empty / single-variant enums x generics with bounds, defaults, where-clauses mentioning Self x by/key on first / middle / last and generic fields x both entry points) is compiled metadata-only under #![deny(warnings)]; any diagnostic is a violation',
         level_note='Trusted: rustc as the oracle; the generator of well-typed programs (bin/l2gen.py); the rule set is validated against rustc, not proved complete.',
     ),
@@ -554,7 +555,7 @@ PROPS.update({
         l1=[('wild', 5000, 200000), ('strip', 2000, 50000), ('impl', 2000, 50000), ('cmpWild', 2000, 50000), ('other', 500, 5000)],
         labels=r'.',
         kinds=('panic', 'nondet', 'parse', 'roundtrip'),
-        extra=extra_fuzz(160000, 8000000),
+        extra=extras(extra_fuzz(160000, 8000000), extra_rustc(l2gen.gen_seq_case, 160, 4000)),
         level_text='partial: totality and determinism are proved of the Lean model (total functions, accepted by the termination checker) and transferred to the implementation only through the L1 runs (catch_unwind around every expansion, every case expanded twice and compared, output re-parsed as items) and the mutation fuzzer; a Lean model cannot exhibit a Rust panic on inputs outside its input language',
     ),
     'C18': dict(
@@ -801,6 +802,32 @@ def replay(prop, path):
     b.harness()
     vlib.regenerate_tables()
     b.lean()
+    od = (d.get('order_dependent') or {}).get('chunk')
+    if od:
+        # the failing input is a *sequence*: the chunk of cases in whose course the disagreement appeared, in one process
+        out = f'{vlib.WORK}/l1/{prop}-replay.seq.jsonl'
+        vlib._l1_chunk((od['family'], od['seed'], od['start'], od['count'], out))
+        hit = []
+        if os.path.exists(out):
+            for line in open(out):
+                line = line.strip()
+                if line:
+                    x = json.loads(line)
+                    if not x.get('summary') and x.get('id') == cid:
+                        hit.append(x)
+            os.remove(out)
+        alone = vlib.alone_l1(prop + '-replay', dict(id=cid))
+        if hit and alone == []:
+            print(json.dumps(hit, indent=1)[:4000])
+            print('replay: in the sequence the case disagrees; alone, in a fresh process, it does not')
+            print(f'VIOLATION property={prop} replay={path}')
+            return 1
+        if hit:
+            print(json.dumps(hit, indent=1)[:4000])
+            print(f'VIOLATION property={prop} replay={path}')
+            return 1
+        print('replay: no disagreement on this case in its sequence any more')
+        return 0
     res = vlib.run_l1(prop + '-replay', fam, int(seed), 1, start=int(idx))
     bad = [m for m in res['mismatches'] if vlib.relevant(m, PROPS[prop]['labels'])]
     sh = (d.get('shrunk') or {}).get('case')
